@@ -436,7 +436,9 @@ class Ncp:
         if int(index) >= self._mc_size():
             return (St("INDEX_OUT_OF_RANGE"), t.EmberMulticastTableEntry(multicastId=0, endpoint=0, networkIndex=0))
         gid, ep = self.multicast.get(int(index), (0, 0))
-        return (St("OK"), t.EmberMulticastTableEntry(multicastId=gid, endpoint=ep, networkIndex=0))
+        # (mc_netidx: what the firmware reports as the entry's network index - 0; 1 on a multi-network stack; None = old single-network
+        # firmware whose answer has no such trailing byte)
+        return (St("OK"), t.EmberMulticastTableEntry(multicastId=gid, endpoint=ep, networkIndex=getattr(self, "mc_netidx", 0)))
 
     def h_setMulticastTableEntry(self, req, index, value):
         if int(index) >= self._mc_size():
